@@ -14,7 +14,7 @@ LEVEL = "exploration"
 RULE = (
     "for each of the 12 attribute-word types: masks checked exhaustively (pairwise disjoint, cover the word, equal the "
     "pinned field list); values: all 256 for 8-bit types, walking ones/zeros + every single-field pattern + seeded "
-    "random words for 32-bit types; per value every accessor and every printed bit row is checked; distinct = distinct "
+    "random words for 32-bit types; per value every accessor and every printed bit row is checked; words are also printed where they occur - every attribute-typed field of generated structures and of messages with sessions is overwritten with test words and the lines below each word's row must be its bit rows; distinct = distinct "
     "(type, value) pairs"
 )
 ASSUMPTIONS = ["pinned field masks (TPMA_LOCALITY.extended corrected to 0xE0 per Part 2, 8.5)"]
@@ -26,7 +26,7 @@ def plan(tier, seed):
     names = sorted(n for n, d in P["types"].items() if d["kind"] == "prim" and "bits" in d)
     # one more shard prints words of all types in one process, the same numeric values back to back in both
     # orders of width: a printer that carries state from one word to the next (caches, shared buffers) shows here
-    return [dict(name=n, type=n) for n in names] + [dict(name="mixed-types", type=None, types=names)]
+    return [dict(name=n, type=n) for n in names] + [dict(name="mixed-types", type=None, types=names), dict(name="context", type=None, kind="context")]
 
 
 def values_for(d, rng, tier):
@@ -90,9 +90,15 @@ def check_value(tn, T, d, live, v, rec, printed=True):
     events = list(Binary.marshal(tpm_type=T, buffer=v.to_bytes(d["width"], "big")))
     lines = [ANSI.sub("", l) for l in Pretty.unmarshal(events)]
     rows = [l.split() for l in lines[1:]]
+    check_rows(tn, d, v, rows, lines, rec, dict(type=tn, value=v))
+
+
+def check_rows(tn, d, v, rows, lines, rec, rep, where=""):
+    """rows: the token lists of the bit rows printed for the word v of type tn."""
+    w = 8 * d["width"]
     pinned = sorted(d["bits"].items(), key=lambda kv: kv[1])
     if len(rows) != len(pinned):
-        rec.violation("rows-count", f"{tn}", f"{tn}({v:#x}): {len(rows)} bit rows for {len(pinned)} fields: {lines}", dict(type=tn, value=v))
+        rec.violation("rows-count", f"{tn}", f"{tn}({v:#x}){where}: {len(rows)} bit rows for {len(pinned)} fields: {lines[:12]}", rep)
         return
     overlay = ["."] * w
     seen = set()
@@ -100,29 +106,102 @@ def check_value(tn, T, d, live, v, rec, printed=True):
         label = next((t for t in toks if t.startswith(".") and not set(t) <= set("01.")), None)
         bits = next((t for t in toks if len(t) == w and set(t) <= set("01.")), None)
         if label is None or bits is None or label[1:] not in d["bits"]:
-            rec.violation("rows-form", f"{tn}", f"{tn}({v:#x}): unreadable bit row {toks}", dict(type=tn, value=v))
+            rec.violation("rows-form", f"{tn}", f"{tn}({v:#x}){where}: unreadable bit row {toks}", rep)
             return
         name = label[1:]
         if name in seen:
-            rec.violation("rows-dup", f"{tn}.{name}", f"{tn}({v:#x}): field {name} shown twice", dict(type=tn, value=v))
+            rec.violation("rows-dup", f"{tn}.{name}", f"{tn}({v:#x}){where}: field {name} shown twice", rep)
         seen.add(name)
         mask = d["bits"][name]
         for i, ch in enumerate(bits):
             bit = w - 1 - i
             if (mask >> bit) & 1:
                 if ch != str((v >> bit) & 1):
-                    rec.violation("rows-bits", f"{tn}.{name}", f"{tn}({v:#x}): row {name} shows {bits}, bit {bit} wrong", dict(type=tn, value=v))
+                    rec.violation("rows-bits", f"{tn}.{name}", f"{tn}({v:#x}){where}: row {name} shows {bits}, bit {bit} wrong", rep)
                     return
                 if overlay[i] != ".":
-                    rec.violation("rows-overlap", f"{tn}.{name}", f"{tn}({v:#x}): bit {bit} shown twice", dict(type=tn, value=v))
+                    rec.violation("rows-overlap", f"{tn}.{name}", f"{tn}({v:#x}){where}: bit {bit} shown twice", rep)
                     return
                 overlay[i] = ch
             elif ch != ".":
-                rec.violation("rows-bits", f"{tn}.{name}", f"{tn}({v:#x}): row {name} shows a bit outside its mask: {bits}", dict(type=tn, value=v))
+                rec.violation("rows-bits", f"{tn}.{name}", f"{tn}({v:#x}){where}: row {name} shows a bit outside its mask: {bits}", rep)
                 return
     if "".join(overlay) != f"{v:0{w}b}":
-        rec.violation("rows-overlay", f"{tn}", f"{tn}({v:#x}): overlay {''.join(overlay)} != {v:0{w}b}", dict(type=tn, value=v))
+        rec.violation("rows-overlay", f"{tn}", f"{tn}({v:#x}){where}: overlay {''.join(overlay)} != {v:0{w}b}", rep)
     rec.count("rows_checked", len(rows))
+
+
+CONTEXT_TYPES = ("TPMS_ACT_DATA", "TPMS_ALGORITHM_DESCRIPTION", "TPMS_ALG_PROPERTY", "TPMS_AUTH_COMMAND", "TPMS_AUTH_RESPONSE",
+                 "TPMS_CREATION_DATA", "TPMS_NV_PUBLIC", "TPMT_PUBLIC", "TPM2B_PUBLIC", "TPM2B_NV_PUBLIC", "TPM2B_CREATION_DATA",
+                 "TPML_ALG_PROPERTY", "TPML_ACT_DATA", "TPMS_CAPABILITY_DATA", "TPMS_CONTEXT")
+CONTEXT_CCS = ("CreatePrimary", "Create", "CreateLoaded", "NV_ReadPublic", "NV_DefineSpace", "PolicyLocality", "GetCapability",
+               "ReadPublic", "Load", "LoadExternal", "CertifyCreation", "GetRandom", "Startup", "NV_Read", "PCR_Read")
+
+
+def run_context(shard, rec):
+    """Attribute words where they really occur: inside structures and messages (behind buffers, lists, handles, other
+    words), several per message.  Every attribute-typed field of a generated encoding is overwritten with test words;
+    the decoder's events say which words were shown, the printed lines below each word's row must be its bit rows."""
+    from tpmstream.io.pretty import Pretty
+
+    from .. import cases, gen
+    from .. import trace as TR
+
+    P = layout.pinned()["types"]
+    attr = {n for n, d in P.items() if d["kind"] == "prim" and "bits" in d}
+    rng = random.Random(f"{shard.get('seed', 0)}:C17:context")
+    thorough = shard.get("tier") == "thorough"
+    codes = layout.pinned()["command_codes"]
+    ccs = [codes[n] for n in CONTEXT_CCS if n in codes]
+    bases = list(cases.struct_cases([t for t in CONTEXT_TYPES if t in P], rng, 3 if thorough else 1))
+    cfgs = [c for c in cases.CONFIGS if c.get("sessions")] or cases.CONFIGS
+    for c, r in cases.msg_cases(ccs, rng, 1, configs=cfgs[: (6 if thorough else 2)]):
+        bases += [c, r]
+    for base in bases:
+        bref = base.ref()
+        if bref.outcome.kind != "ok":
+            continue
+        words = [e for e in bref.events if e.tname in attr and e.value is not None]
+        if not words:
+            continue
+        rec.count("context_bases")
+        for round_ in range(24 if thorough else 5):
+            d = base.d
+            for e in words:
+                w = 8 * P[e.tname]["width"]
+                masks = list(P[e.tname]["bits"].values())
+                v = rng.choice((rng.getrandbits(w), rng.choice(masks), (1 << w) - 1, ((1 << w) - 1) ^ rng.choice(masks), 1 << rng.randrange(w), e.value))
+                if e.tname == "TPMA_SESSION" and base.t == "Response" and not base.enc:
+                    v &= ~0x40  # a response session that says 'encrypt' contradicts the flag: decoding stops (known finding D10)
+                d = cases.patch(d, e.span, v, False) or d
+            t = TR.run(base.t, d, strict=False, cc=base.cc, enc=base.enc)
+            if t.outcome[0] not in ("ok",):
+                rec.count(f"context_decode_{t.outcome[0]}")
+                continue
+            shown = [e for e in t.mevents if e.tname in attr and e.value is not None and e.path[-1][1] is None]
+            lines = [ANSI.sub("", l) for l in Pretty.unmarshal([e.raw for e in t.events])]
+            toks = [l.split() for l in lines]
+            k = 0
+            i = 0
+            rep = dict(context=True, t=base.t, cc=base.cc, enc=base.enc, hex=d.hex())
+            while i < len(toks):
+                tk = toks[i]
+                if tk and tk[0] in attr and k < len(shown) and tk[0] == shown[k].tname and len(tk) > 1 and not tk[1].endswith("]"):
+                    ev = shown[k]
+                    k += 1
+                    j = i + 1
+                    while j < len(toks) and toks[j] and (toks[j][0].startswith("|") or toks[j][0].startswith(".")):
+                        j += 1
+                    rec.case(("context", base.t, base.cc, TR.pstr(ev.path), ev.value), nontrivial=True)
+                    rec.count("context_words")
+                    check_rows(ev.tname, P[ev.tname], ev.value, [[x for x in row if x != "|"] for row in toks[i + 1 : j]], lines[i : i + 6], rec, rep,
+                               where=f" at {TR.pstr(ev.path)} of a {base.t}{'' if base.cc is None else f' (code {base.cc:#x})'}, line {i}")
+                    i = j
+                else:
+                    i += 1
+            if k != len(shown):
+                rec.violation("context-row-missing", "word-row", f"{base.short()}\n{len(shown)} attribute words were decoded (not list elements), {k} word rows found in the printed output", rep)
+    rec.count("context_shards")
 
 
 def run_mixed(shard, rec):
@@ -144,6 +223,9 @@ def run_mixed(shard, rec):
 def run_shard(shard, rec):
     from ..trace import type_by_name
 
+    if shard.get("kind") == "context":
+        run_context(shard, rec)
+        return
     if shard["type"] is None:
         run_mixed(shard, rec)
         return
@@ -166,6 +248,8 @@ def finish(m, tier):
         inc.append(f"{m['counters'].get('types', 0)} attribute types checked, expected 12")
     if not m["counters"].get("mixed_sequences"):
         inc.append("the mixed-type sequence was not run")
+    if not m["counters"].get("context_words"):
+        inc.append("no attribute word was checked inside a structure or message")
     if not m["counters"].get("rows_checked"):
         inc.append("no printed bit row was checked")
     return dict(inconclusive=inc, coverage=dict(explanation="masks exhaustive for all 12 types; values exhaustive for the 8-bit types"))
@@ -178,5 +262,9 @@ def replay(case, rec):
     d = layout.pinned()["types"][tn]
     T = type_by_name(tn)
     live = check_masks(tn, T, d, rec)
+    if case.get("context"):
+        rec.count("replay_of_context_case_needs_the_shard")
+        run_context(dict(name="context", kind="context", tier="quick"), rec)
+        return
     if "value" in case:
         check_value(tn, T, d, live, case["value"], rec)
